@@ -35,29 +35,17 @@ impl SegmentWriter {
         let header_bytes_written = WAL_ENTRY_HEADER_SIZE as u32;
         let op_data_len = op_data.len() as u32;
 
-        self.writer.write_all(&op_version.get().to_le_bytes()).map_err(|io_err| {
-            WalError::WriteWalEntryDataIO {
-                op_version,
-                segment_id: self.segment_id,
-                source: io_err,
-            }
-        })?;
-        self.writer.write_all(op_hash.as_bytes()).map_err(|io_err| {
-            WalError::WriteWalEntryDataIO {
-                op_version,
-                segment_id: self.segment_id,
-                source: io_err,
-            }
-        })?;
-        self.writer.write_all(&op_data_len.to_le_bytes()).map_err(|io_err| {
-            WalError::WriteWalEntryDataIO {
-                op_version,
-                segment_id: self.segment_id,
-                source: io_err,
-            }
-        })?;
+        // Assemble header and payload in one buffer and hand it to the OS with a single write:
+        // a record that is larger than the `BufWriter` buffer would otherwise reach the file as two
+        // writes (header, then payload), and a crash between them leaves a header without its
+        // payload, which replay rejects - the database could not be opened any more.
+        let mut entry = Vec::with_capacity(WAL_ENTRY_HEADER_SIZE + op_data.len());
+        entry.extend_from_slice(&op_version.get().to_le_bytes());
+        entry.extend_from_slice(op_hash.as_bytes());
+        entry.extend_from_slice(&op_data_len.to_le_bytes());
+        entry.extend_from_slice(op_data);
 
-        self.writer.write_all(op_data).map_err(|io_err| WalError::WriteWalEntryDataIO {
+        self.writer.write_all(&entry).map_err(|io_err| WalError::WriteWalEntryDataIO {
             op_version,
             segment_id: self.segment_id,
             source: io_err,
